@@ -617,6 +617,12 @@ type v9Ctx struct {
 
 func v9Setup(t *testing.T) *v9Ctx {
 	log.SetOutput(io.Discard)
+	// message ids default to offset + raft index; the binary runs with this offset (flag default), and with
+	// offset 0 "the raft index" and "the message id" coincide, which hides mix-ups of the two
+	robust.MessageOffset = 4648398125000000000
+	if o := os.Getenv("VERIF_MSGOFFSET"); o != "" {
+		robust.MessageOffset, _ = strconv.ParseUint(o, 10, 64)
+	}
 	full, core := v9Alphabet()
 	ops := full
 	if os.Getenv("VERIF_C09_ALPHA") == "core" {
